@@ -22,7 +22,7 @@ func init() {
 
 // perturbation kinds per property; one campaign per kind so that a divergence is attributed to exactly one kind.
 var twinKinds = map[string][]string{
-	"C11": {"checktx", "simulate", "store-query", "custom-query", "app-query"},
+	"C11": {"checktx", "simulate", "store-query", "custom-query", "app-query", "checktx-burst"},
 	"C13": {"custom-query-history", "app-query-history", "dispatch", "mixed-offchain"},
 }
 
@@ -32,6 +32,10 @@ func twinBase(rr *rand.Rand, blocks int) *chain.Chaos {
 	stake := map[int]int64{}
 	for i := 0; i < blocks; i++ {
 		c.GenBlock()
+		// every few blocks one transaction appears twice in the same block (the second copy must be rejected)
+		if last := c.B.Steps[len(c.B.Steps)-1].Block; i%3 == 1 && len(last.Txs) > 0 {
+			last.Txs = append(last.Txs, last.Txs[rr.Intn(len(last.Txs))])
+		}
 		// one extra application edit-stake in most blocks (appended as a separate small block to keep the generator simple)
 		if rr.Intn(3) > 0 {
 			k := chain.KeyApp0 + rr.Intn(7)
@@ -110,6 +114,9 @@ func perturb(rr *rand.Rand, sc chain.Script, g chain.GenSpec, kind string, densi
 			}
 			var op chain.MidOp
 			switch k {
+			case "checktx-burst":
+				// a mempool under load: thousands of distinct CheckTx calls in the middle of a block
+				op = chain.MidOp{Kind: "checktx", Tx: offTx(rr, g, n), Repeat: 1500 + rr.Intn(1500)}
 			case "checktx":
 				op = chain.MidOp{Kind: "checktx", Tx: offTx(rr, g, n)}
 			case "simulate":
